@@ -2,6 +2,8 @@ package llsym
 
 import (
 	"fmt"
+	"os"
+	"sync/atomic"
 	"runtime/debug"
 	"sort"
 	"strings"
@@ -143,6 +145,7 @@ type Exec struct {
 	uninitCtr int
 	fnSeen  map[string]bool
 	bases   map[*Obj]*sym.Term
+	curBlock string
 }
 
 type checkRec struct {
@@ -229,7 +232,14 @@ func (e *Exec) feasible(c *sym.Term) (sym.Result, map[string]uint64) {
 	return r, m
 }
 
+var ForkSites sync.Map
+
 func (e *Exec) queueAlt(d decision, m map[string]uint64) {
+	if os.Getenv("VERIF_FORKS") != "" && e.cur != nil {
+		key := e.cur.fn.Name + "/" + e.curBlock
+		v, _ := ForkSites.LoadOrStore(key, new(int64))
+		atomic.AddInt64(v.(*int64), 1)
+	}
 	alt := make([]decision, len(e.trace)+1)
 	copy(alt, e.trace)
 	alt[len(e.trace)] = d
